@@ -1,6 +1,8 @@
 package evm
 
 import (
+	"encoding/binary"
+
 	"github.com/Oneledger/protocol/storage"
 	ethcmn "github.com/ethereum/go-ethereum/common"
 )
@@ -8,6 +10,9 @@ import (
 var (
 	KeyPrefixCode    = []byte{0x01}
 	KeyPrefixStorage = []byte{0x02}
+	// KeyPrefixGeneration holds, per address, the number of times the account's storage was discarded
+	// (self-destruct, deletion, re-creation). Generation 0 uses the historical key layout.
+	KeyPrefixGeneration = []byte{0x03}
 )
 
 type ContractStore struct {
@@ -66,4 +71,15 @@ func (cs *ContractStore) Iterate(prefix []byte, fn func(key []byte, value []byte
 // AddressStoragePrefix returns a prefix to iterate over a given account storage.
 func AddressStoragePrefix(address ethcmn.Address) []byte {
 	return append(KeyPrefixStorage, address.Bytes()...)
+}
+
+// AddressStorageGenerationPrefix is AddressStoragePrefix for a given storage generation of the account.
+func AddressStorageGenerationPrefix(address ethcmn.Address, generation uint64) []byte {
+	prefix := AddressStoragePrefix(address)
+	if generation == 0 {
+		return prefix
+	}
+	var gen [8]byte
+	binary.BigEndian.PutUint64(gen[:], generation)
+	return append(prefix, gen[:]...)
 }
